@@ -19,3 +19,8 @@ CLAIMED["C17"] = {
     "note": "One distinct key per handle; invalidated handles are not reused as premises (property quantifier). Trusted: rsym + library model, z3, reference model. Bounded.",
 }
 NA.pop("C17", None)
+CLAIMED["C18"] = {
+    "text": "Bounded symbolic model checking of the real ModuleManager: every history of K operations (create/delete module, add rule, set exports, import) with symbolic arguments over up to 4 module names, 3 rule names and 4 wildcard patterns; acyclicity of the declared imports among existing modules, refusal-without-effect of cycle-closing imports, and is_rule_visible (answers, and equals owns-or-imports-from-an-exporting-module) are SMT obligations.",
+    "note": "Name/pattern alphabets finite (stated); re-exports/templates outside. Trusted: rsym + library model, z3, reference model. Bounded in K.",
+}
+NA.pop("C18", None)
